@@ -89,6 +89,9 @@ class EvalMixin:
                 # literal tuple / list / *args: unrolled element by element, one path per outcome of the filters
                 yield from self.listcomp_display(node, g, st1, seq.t, 0, [])
                 continue
+            if (len(g.ifs) == 1 and isinstance(g.target, ast.Name) and isinstance(node.elt, ast.Name) and node.elt.id == g.target.id
+                    and isinstance(seq.ty, T.List)):
+                yield from self.listcomp_filter(node, g, st1, seq); continue
             if g.ifs or not isinstance(g.target, ast.Name):
                 raise VCError("list comprehension form (line %d)" % node.lineno)
             if not isinstance(seq.ty, T.List): raise VCError("list comprehension over %s" % seq.ty)
@@ -125,6 +128,46 @@ class EvalMixin:
             if subst: body = z3.substitute(body, *subst)
             st1.assume(z3.ForAll([i], z3.Implies(z3.And(i >= 0, i < n), body), patterns=[T.list_arr(rty, res)[i]]))
             yield st1, SV(rty, res)
+
+    def listcomp_filter(self, node, g, st1, seq):
+        """[x for x in lst if cond(x)] : the sub-list of the elements that satisfy a pure condition, in order, with multiplicity.
+        Encoding: a fresh list `res` with a strictly increasing index map fidx (res[k] == lst[fidx(k)], cond holds there) that is onto the
+        positions where cond holds (inverse finv)."""
+        i = fresh("lf_i", T.Int)
+        s2 = st1.fork(); s2.env = dict(st1.env)
+        arr = T.list_arr(seq.ty, seq.t); n = T.list_len(seq.ty, seq.t)
+        elem = SV(seq.ty.t, z3.Select(arr, i))
+        s2.env[g.target.id] = elem
+        base = len(s2.pc)
+        self.assume_wf(s2, elem)
+        wf = s2.pc[base:]
+        base = len(s2.pc)
+        s2.exc_sink = []
+        mark = fresh_mark()
+        outs = list(self.ev(g.ifs[0], s2))
+        if not outs: raise VCError("list comprehension condition has no normal outcome")
+        if s2.exc_sink and not self.spec:
+            for es, exn in s2.exc_sink:
+                self.oblige(st1, z3.ForAll([i], z3.Implies(z3.And(i >= 0, i < n), z3.Not(z3.And(wf + es.pc[base:] + [z3.BoolVal(True)])))),
+                            "list-comprehension-condition-raises-%s" % exn, node)
+        c = self.truth(outs[-1][1])
+        for so, vo in reversed(outs[:-1]):
+            c = z3.If(z3.And(so.pc[base:] + [z3.BoolVal(True)]), self.truth(vo), c)
+        if new_consts([c], mark):
+            raise VCError("list comprehension condition is not a pure function of the element (line %d)" % node.lineno)
+        def C(j): return z3.substitute(c, (i, j))
+        rty = seq.ty
+        res = fresh("lf", rty); m = T.list_len(rty, res); rarr = T.list_arr(rty, res)
+        tag = res.decl().name().replace("!", "_")
+        fidx = z3.Function("fidx_" + tag, z3.IntSort(), z3.IntSort()); finv = z3.Function("finv_" + tag, z3.IntSort(), z3.IntSort())
+        k = z3.Int("k!lf"); k2 = z3.Int("k2!lf"); j = z3.Int("j!lf")
+        st1.assume(z3.And(m >= 0, m <= n))
+        st1.assume(z3.ForAll([k], z3.Implies(z3.And(k >= 0, k < m), z3.And(fidx(k) >= 0, fidx(k) < n, rarr[k] == arr[fidx(k)], C(fidx(k)))), patterns=[rarr[k]]))
+        st1.assume(z3.ForAll([k, k2], z3.Implies(z3.And(k >= 0, k < k2, k2 < m), fidx(k) < fidx(k2)), patterns=[z3.MultiPattern(fidx(k), fidx(k2))]))
+        st1.assume(z3.ForAll([j], z3.Implies(z3.And(j >= 0, j < n, C(j)), z3.And(finv(j) >= 0, finv(j) < m, fidx(finv(j)) == j, rarr[finv(j)] == arr[j])),
+                             patterns=[arr[j]]))
+        out = SV(rty, res)
+        yield st1, out
 
     def listcomp_display(self, node, g, st, elems, k, acc):
         if k == len(elems):
